@@ -41,7 +41,8 @@ with ThreadPoolExecutor(int(os.environ.get("ST_JOBS", "4"))) as ex:
     for m, status, res in ex.map(one, muts):
         caught = [p for p, (rc, _, _) in res.items() if rc == 1]
         line = '| %s | %s | %s | %s |' % (m['name'], ', '.join(m['props']), status if status != 'ok' else
-                                       ('CAUGHT by ' + ', '.join(caught) if caught else '**MISSED**'),
+                                       ('CAUGHT by ' + ', '.join(caught) if caught else
+                                        ('not caught - EQUIVALENT: ' + m['equivalent'] if m.get('equivalent') else '**MISSED**')),
                                        '; '.join('%s: rc=%s %s (%ss)' % (p, rc, ','.join(c), t) for p, (rc, c, t) in res.items()))
         print(line, flush=True)
         rows.append((m, status, res, line))
@@ -54,4 +55,7 @@ if not sel:
         for m, status, res, line in rows:
             fh.write(line + '\n')
         n = sum(1 for m, s, r, l in rows if any(rc == 1 for rc, _, _ in r.values()))
-        fh.write('\n%d of %d breaks caught by at least one expected check (quick tier).\n' % (n, len(rows)))
+        eq = sum(1 for m, s, r, l in rows if m.get('equivalent') and not any(rc == 1 for rc, _, _ in r.values()))
+        fh.write('\n%d of %d breaks caught by at least one expected check (quick tier); %d not caught because they are '
+                 'equivalent for every reachable input or rested on a wrong expectation (reason in the table); %d missed.\n'
+                 % (n, len(rows), eq, len(rows) - n - eq))
